@@ -56,6 +56,10 @@ Theorem c18_upsert_refines b v p now :
   end.
 Proof. exact (upsert_refines b v p now). Qed.
 
+(* the executable invariant that the Run module evaluates on every recorded bucket state follows from the proved one *)
+Theorem c18_executable_invariant b : binv b -> inv_b b = true.
+Proof. exact (binv_inv_b b). Qed.
+
 (* IsStale (repaired): true exactly when every tracked item is expired *)
 Theorem c18_is_stale_exact b now :
   NoDup (map it_val (b_items b)) -> (is_stale b now = true <-> forall k q, abs b !! k = Some q -> q < now).
